@@ -6,6 +6,7 @@ import (
 	"go/token"
 	"go/types"
 	"os"
+	"path/filepath"
 	"strings"
 
 	"golang.org/x/tools/go/packages"
@@ -19,7 +20,7 @@ func init() {
 		Explain: "Access-logging safety and structure: (P*) every bounds check the Go compiler's prove pass cannot eliminate in the access logger (package logger: everything reachable from the implementations of the Logger interface, the functions returning a Logger and the package initialisers - not the levelled writer) and in the request-path value formatters of packages proxy and uuid (functions from integers / byte arrays to string or []byte, e.g. uint16base16, i32toa, uuid.ToString, and their helpers) must be PROVED by the checker: an interval analysis of the SSA form (constants, arithmetic, masks and shifts, branch conditions dominating the use, loop counters with delayed widening and narrowing, digit loops q = q/k bounded by log_k, parameters from the constant arguments at all call sites, captured variables from the values stored in their cells, callee results, lengths of arrays / constant strings / make / package-level slices that are only assigned values of known length, contents of constant tables, members of local structs and of the elements of tables of structs that only receive values of known range (table-driven registration), time.Time.Month() in 1..12, strings.Index* in -1..len-1, symbolic bounds n <= len(s) from conditions and callee summaries, low <= high for bounds that are the same multiple of one value plus ordered constants, two loads of one struct field with no possible write in between as one value; the result does not depend on the order in which functions are analysed: a failed proof is retried from scratch with the function first and with its callees first), or by the Index-bound rule (slice bounds from Index*/LastIndex* under a dominating >= 0 test); the single reviewed residual (the header name sliced out of a lexer token under the token-type test) is recognised by structure; anything else is reported - so a new unguarded index on the logging path, a scratch buffer that became too small, a table that lost an entry or a pad width that outgrew the buffer cannot appear silently; the logging path contains no explicit panic, no type assertion other than on the pool whose New returns that type, no integer division whose divisor is not proved non-zero (from the constants at the call sites or a dominating test); (U1) every calendar accessor (Year..Second, Nanosecond, Month, Day) feeding a field that prints a fixed UTC suffix is applied to a value derived from time.Time.UTC() (or In(time.UTC)) - in the renderer, or because every dynamic call of package logger (function value or interface method: renderers, their decorators and selector functions) that passes an event (an *Event or a small struct around it) passes, on every way the value can come from, a copy whose Start/End were assigned from UTC() (in the Logger implementation, a helper of it, or at every caller of Logger.Log), a plain copy of such an event, or the own parameter of a function that is itself only entered through such calls (induction over the dispatch depth; some call must pass a normalised copy to start from); times handed on through dynamic calls are treated the same way; (F1) every field named in the package documentation is a key of the table of renderers (any map whose elements render an event: functions taking an *Event or a struct around it, interfaces with such a method; constant keys, or keys read from the name member of a table of structs) and both named formats use only known fields or $header.*; (O1) ServeHTTP (or the helpers it calls) calls Logger.Log exactly once per path, after the inner handler returned, with Request/Response/RequestURL/UpstreamURL set to non-nil values and UpstreamAddr taken from the target URL's host; (I1) nothing in package logger can reach the response writer (no parameter, field or result of type http.ResponseWriter); (B1) in the Logger implementation that uses the pool the buffer goes Get -> Reset (before any other use) -> write to the shared writer -> Put (also deferred), in that order on every path and across helpers, is not used after Put, and every use of the shared writer happens under a mutex. (E1) nothing hands a decoded URL component (url.URL.Path/Fragment) to the line buffer, also not as the result of a function value given to a decorator; (N1) no negation of a signed value of at most 32 bits in its own width (wrong for the minimum); Not decided: agreement of atoi, i32toa, uint16base16, uuid.ToString and the time renderers with strconv/fmt/time on every value (numeric/string equality over value domains).",
 		Run:     runC20,
 		Trusted: []string{"soundness of the compiler's prove pass", "the checker's interval analysis (checker/c20_prove.go): over-approximating, wrap-around gives the whole type", "time.Time.Month() is in 1..12 (Day 1..31, Hour 0..23, ...); strings.Index* return -1..len(s)-1; time.Time accessors of a UTC time describe UTC", "one reviewed residual, recognised by structure: the header name sliced from a lexer token under the token-type test (c20TokenResidual)", "test files are not loaded: a call site in a _test.go file does not widen a parameter's range"},
-		Mutants: append([]mutant{
+		Mutants: c20SelectMutants(append([]mutant{
 			{Name: "request url rendered from the decoded path", File: "logger/pattern.go", Old: "\t\tb.WriteString(e.RequestURL.String())\n", New: "\t\tb.WriteString(e.RequestURL.Scheme + \"://\" + e.RequestURL.Host + e.RequestURL.Path)\n", Expect: "C20.E1"},
 			{Name: "i32toa negates in 32 bits", File: "proxy/http_headers.go", Old: "\ti := int64(n)\n\tsigned := i < 0\n\tif signed {\n\t\ti = -i\n\t}", New: "\tsigned := n < 0\n\tif signed {\n\t\tn = -n\n\t}\n\ti := int64(n)", Expect: "C20.N1"},
 
@@ -101,7 +102,7 @@ func init() {
 			{Name: "benign: the pool is a field of the logger, New set in the constructor", File: "logger/logger.go", Old: "\treturn &logger{p: p, w: w}, nil\n", New: "\tl := &logger{p: p, w: w}\n\tl.bufs.New = func() interface{} {\n\t\treturn bytes.NewBuffer(make([]byte, 0, bufSize))\n\t}\n\treturn l, nil\n",
 				More: []repl{{"\tmu sync.Mutex\n\tw  io.Writer\n}", "\tmu sync.Mutex\n\tw  io.Writer\n\n\tbufs sync.Pool\n}"}, {"\tb := pool.Get().(*bytes.Buffer)\n", "\tb := l.bufs.Get().(*bytes.Buffer)\n"}, {"\tpool.Put(b)\n", "\tl.bufs.Put(b)\n"}}, Expect: ""},
 			{Name: "benign: i32toa counts down from a constant and names the digit", File: "proxy/http_headers.go", Old: "\tpos := len(buf)\n", New: "\tpos := 11\n", More: []repl{{"\t\tbuf[pos], i = '0'+byte(i%10), i/10\n", "\t\tdigit := byte(i % 10)\n\t\tbuf[pos] = '0' + digit\n\t\ti = i / 10\n"}}, Expect: ""},
-		}, c20MutantsRound2...),
+		}, append(append([]mutant{}, c20MutantsRound2...), c20MutantsRound5...)...)),
 	})
 }
 
@@ -361,7 +362,7 @@ func c20TokenResidual(sl *ssa.Slice) (bool, string) {
 			// the longest string constant the lexer (or a helper of it) compares its input with
 			longest := ""
 			note := func(v ssa.Value) {
-				if s, ok := constString(v); ok && len(s) > len(longest) {
+				if s, ok := c20constText(v, 0); ok && len(s) > len(longest) {
 					longest = s
 				}
 			}
@@ -379,8 +380,10 @@ func c20TokenResidual(sl *ssa.Slice) (bool, string) {
 							note(c2.Y)
 						}
 						if cc := callCommon(i); cc != nil {
-							switch calleeName(cc) {
-							case "strings.HasPrefix", "strings.EqualFold":
+							switch stripTypeArgs(calleeName(cc)) {
+							case "strings.HasPrefix", "strings.EqualFold", "strings.Compare", "strings.CutPrefix",
+								"bytes.Equal", "bytes.HasPrefix", "bytes.EqualFold", "bytes.Compare", "bytes.CutPrefix",
+								"slices.Equal", "slices.Compare":
 								for _, a := range cc.Args {
 									note(a)
 								}
@@ -396,10 +399,81 @@ func c20TokenResidual(sl *ssa.Slice) (bool, string) {
 			if longest == "" || k > int64(len(longest))+1 {
 				continue
 			}
+			// the tested token type must be one the lexer only yields after the match - where its state machine is understood
+			wrongType := false
+			if kc, isK := cmp.Y.(*ssa.Const); isK {
+				for g := range seen {
+					if understood, guaranteed := c20TokenTypeAfterMatch(g, kc, int(k)-1); understood && !guaranteed {
+						wrongType = true
+					}
+				}
+			}
+			if wrongType {
+				continue
+			}
 			return true, "reviewed residual: the token text is sliced at offset " + itoa(int(k)) + " under a test of the token type returned by " + fnKey(sc) + ", whose state machine yields that type only after matching " + strconvQuote(longest) + " and at least one more character"
 		}
 	}
 	return false, ""
+}
+
+// c20constText: the constant text a comparison operand stands for: a string constant, its conversion to []rune /
+// []byte (and back), or a package-level variable whose only assignment is its initialiser with such a value
+// (var headerRunes = []rune("$header")).
+func c20constText(v ssa.Value, depth int) (string, bool) {
+	if s, ok := constString(v); ok {
+		return s, true
+	}
+	if depth > 3 {
+		return "", false
+	}
+	switch x := v.(type) {
+	case *ssa.Convert:
+		return c20constText(x.X, depth+1)
+	case *ssa.ChangeType:
+		return c20constText(x.X, depth+1)
+	case *ssa.UnOp:
+		g, ok := x.X.(*ssa.Global)
+		if !ok || x.Op != token.MUL || g.Pkg == nil {
+			return "", false
+		}
+		var val ssa.Value
+		n := 0
+		for _, m := range g.Pkg.Members {
+			f, isF := m.(*ssa.Function)
+			if !isF {
+				continue
+			}
+			for _, h := range withAnon(f) {
+				eachInstr(h, func(i ssa.Instruction) {
+					for _, op := range i.Operands(nil) {
+						if op == nil || *op != ssa.Value(g) {
+							continue
+						}
+						switch y := i.(type) {
+						case *ssa.Store:
+							if y.Addr == ssa.Value(g) && isInitFn(h) && h.Synthetic != "" {
+								val = y.Val
+								n++
+							} else {
+								n += 2
+							}
+						case *ssa.UnOp:
+							if y.Op != token.MUL {
+								n += 2
+							}
+						default:
+							n += 2 // the address goes somewhere
+						}
+					}
+				})
+			}
+		}
+		if n == 1 && val != nil {
+			return c20constText(val, depth+1)
+		}
+	}
+	return "", false
 }
 
 func strconvQuote(s string) string { return "\"" + s + "\"" }
@@ -538,10 +612,23 @@ func runC20P(c *Ctx) {
 			})
 		}
 		sites := indexSites(pp)
+		// the directories that hold the package's own source files
+		ownDir := map[string]bool{}
+		for _, gf := range append(append([]string{}, pp.GoFiles...), pp.CompiledGoFiles...) {
+			ownDir[filepath.Dir(gf)] = true
+		}
 		for _, r := range reps {
 			file := r.file
 			if !strings.HasPrefix(file, "/") {
 				file = c.Dir + "/" + file
+			}
+			if len(ownDir) > 0 && !ownDir[filepath.Dir(file)] {
+				// The body of a generic function of another package (slices.Sorted, slices.SortFunc, maps.Keys ...) that the
+				// compiler instantiates while it compiles this package: the report is about the library's code, not about
+				// an index expression of this package. Like the body of every other library function the logger calls, it
+				// is outside the rule; what this package hands to it is still examined at the call.
+				nRaw--
+				continue
 			}
 			bn := file[strings.LastIndex(file, "/")+1:]
 			instrs := byPos[posKey{file, r.line, r.col}]
